@@ -19,6 +19,7 @@ import (
 	"github.com/openebs/jiva/controller"
 	"github.com/openebs/jiva/rpc"
 	"github.com/openebs/jiva/types"
+	"github.com/openebs/jiva/verifshim/vtime"
 	"github.com/sirupsen/logrus"
 
 	"verif/harness/kernel"
@@ -47,6 +48,7 @@ type Cfg struct {
 	ViaREST      bool     `json:"via_rest,omitempty"`      // management events go through controller/client -> controller/rest (api.go)
 	MaxReverts   int      `json:"max_reverts,omitempty"`   // volume reverts per path (0 = 1)
 	ViaRPC       bool     `json:"via_rpc,omitempty"`       // every backend's data path is the real rpc.Client -> loopback TCP -> rpc.Server -> node
+	RealMon      bool     `json:"real_mon,omitempty"`      // with ViaRPC: the real monitorPing goroutine watches every backend; the harness fires its ticker (PingOK/PingF) and cuts connections (ConnDrop)
 	UnmapAnytime bool     `json:"unmap_anytime,omitempty"` // UnB is also enabled while a replica is rebuilding
 }
 
@@ -83,6 +85,10 @@ type be struct {
 	monitoring bool // monitorPing has not yet sent on monitorChan
 	detached   bool // seen absent from the controller after some event
 	ownerB     bool // belongs to the second volume's controller
+	realMon    bool // watched by the real monitorPing goroutine (Cfg.RealMon)
+	tick       chan vtime.Time
+	cconn      net.Conn
+	sconn      net.Conn
 }
 
 type goodSnap struct {
@@ -160,9 +166,11 @@ type cluster struct {
 	nTicks         int
 	nReverts       int
 	nUnmaps        int
-	conns          []net.Conn   // rpc connections of this execution (ViaRPC)
-	undone         map[int]bool // write id -> undone by a volume revert to a snapshot taken before it
-	goodSnaps      []goodSnap   // volume snapshots that were reported successful
+	conns          []net.Conn           // rpc connections of this execution (ViaRPC)
+	pendingPing    chan chan vtime.Time // set while a backend\'s real monitorPing goroutine is being started
+	failPing       map[int]bool         // node -> its next ping answer is an error (RealMon)
+	undone         map[int]bool         // write id -> undone by a volume revert to a snapshot taken before it
+	goodSnaps      []goodSnap           // volume snapshots that were reported successful
 	failFold       bool
 	killFold       bool                 // the next coalesce: the sync agent's sfold child dies from a signal
 	agents         map[int]http.Handler // node -> router of jiva's REAL sync agent (used for coalesce requests)
@@ -357,6 +365,7 @@ func (f factory) Create(address string) (types.Backend, error) {
 		go srv.Handle()
 		r = remote.NewForVerifRPC(address, ip(n)+":9502", cc)
 		cl.cnt["rpc_backends"]++
+		b.cconn, b.sconn = cc, sc
 	} else {
 		r = remote.NewForVerif(address, ip(n)+":9502", nodeIOs{cl, b})
 	}
@@ -365,6 +374,16 @@ func (f factory) Create(address string) (types.Backend, error) {
 	}
 	b.r = r
 	b.monitoring = true
+	if cl.cfg.RealMon {
+		// the REAL monitorPing goroutine watches this backend (its ticker belongs to the harness: Tick events); the
+		// harness does not play the monitor for it
+		cl.pendingPing = make(chan chan vtime.Time, 1)
+		r.VerifStartMonitor()
+		b.tick = <-cl.pendingPing
+		cl.pendingPing = nil
+		b.monitoring = false
+		b.realMon = true
+	}
 	cl.bes = append(cl.bes, b)
 	cl.attachAt[b.seq] = cl.nWrites
 	return r, nil
@@ -373,7 +392,12 @@ func (f factory) Create(address string) (types.Backend, error) {
 // rpcData makes a node's data calls the data processor of the real rpc server.
 type rpcData struct{ nodeIOs }
 
-func (rpcData) PingResponse() error { return nil }
+func (d rpcData) PingResponse() error {
+	if d.cl.failPing[d.b.node] {
+		return fmt.Errorf("ping refused (injected)")
+	}
+	return nil
+}
 
 func tcpPair() (net.Conn, net.Conn, error) {
 	l, err := net.Listen("tcp", "127.0.0.1:0")
@@ -580,6 +604,33 @@ func (cl *cluster) settle() {
 		}
 		runtime.Gosched()
 		time.Sleep(20 * time.Microsecond)
+	}
+}
+
+// settleReal (Cfg.RealMon): the real monitor goroutines run free.  Every chain they start begins with a replica marked
+// ERR (or with a cut connection, which ConnDrop waits for itself) and ends with that replica's removal: wait until no
+// listed replica is in mode ERR, then until the controller's goroutines are parked.  The deadline only turns a replica
+// that is never removed into a diagnosis.
+func (cl *cluster) settleReal(what string) {
+	deadline := time.Now().Add(15 * time.Second)
+	for {
+		pending := "(controller lock held)"
+		if v, ok := cl.c.VerifViewIfFree(); ok {
+			pending = ""
+			for _, r := range v.Replicas {
+				if r.Mode == types.ERR {
+					pending = r.Address
+				}
+			}
+		}
+		if pending == "" && monitorsBusy() == 0 && cl.c.VerifCanonicalOrderIfFree() {
+			return
+		}
+		if time.Now().After(deadline) {
+			cl.violate("err-replica-lingers", "err-replica-lingers", fmt.Sprintf("after %s replica %s is still listed in mode ERR after 15 s with the real monitor goroutines running: nothing removes it", what, pending))
+			return
+		}
+		time.Sleep(50 * time.Microsecond)
 	}
 }
 
